@@ -527,6 +527,13 @@ func genC07(tier string) []Case {
 	field("genok.hash", 128, 10, 128, "abort", false, false, "dh_gen_ok.new_nonce_hash1")
 	ctor("genok.ctor", []string{"dh_gen_retry", "dh_gen_fail", "server_DH_params_fail", "resPQ", "pong"}, "answer to set_client_DH_params")
 
+	// a notification that arrives BEFORE the (lying) answer to set_client_DH_params, sealed with the key the client is
+	// about to adopt (the server is the DH peer and knows it) or unencrypted: new_session_created, bad_server_salt, a
+	// container with new_session_created, an rpc_result
+	for _, k := range []string{"enc:new_session_created", "enc:bad_server_salt", "enc:container", "enc:rpc_result", "plain:new_session_created", "plain:bad_server_salt"} {
+		add("genok.inject", k, 0, "abort", false, "before the answer to set_client_DH_params (a dh_gen_ok with a wrong new_nonce_hash1) the server sends "+
+			strings.Replace(strings.Replace(k, "enc:", "an ENCRYPTED (key of the unfinished exchange) ", 1), "plain:", "an unencrypted ", 1))
+	}
 	// replies that cannot be read at all, at each of the three steps: an unregistered constructor id, a truncated body,
 	// an empty body, the 4-byte transport error frame -404 (what real servers send), the connection closed
 	for step := 1; step <= 3; step++ {
